@@ -272,9 +272,9 @@ Proof.
       split.
       * intros _ _. split; [reflexivity|].
         destruct (sc0 =? SC_TRU); [inversion H; auto|].
-        destruct (index_any [35; 63] (b0 :: v)); inversion H; auto.
+        destruct (index_any [35; 63] (html_unescape (b0 :: v))); inversion H; auto.
       * destruct (sc0 =? SC_TRU); [inversion H; exists [N_validateTRUSubst; N_queryEscapeURL]; reflexivity|].
-        destruct (index_any [35; 63] (b0 :: v)); inversion H;
+        destruct (index_any [35; 63] (html_unescape (b0 :: v))); inversion H;
           [exists [N_queryEscapeURL] | exists [N_normalizeURL]]; reflexivity.
   - inversion H; subst.
     split; [reflexivity|]. split; [discriminate|]. split; [discriminate|].
